@@ -165,6 +165,33 @@ PROPS = {
             "for this partial record.",
         "exhaustive_quick": False,
     },
+    "C03": {
+        "lean_modules": ["TemporalModel.Props.C03"],
+        "suites": ["c03", "c04", "c05", "c06", "c08", "c09", "c10", "c17", "c18"],
+        "level_text": "Proof: every panic site of the modelled code (unreachable!/assert!/temporal_assert!/unchecked index or unwrap/"
+                      "unbounded loop) is an explicit `.panic` or `.err .assert` outcome of the model, and C03_constructors, "
+                      "C03_option_resolvers, C03_time_instant, C03_duration, C03_plain_date, C03_plain_date_time, "
+                      "C03_plain_time_partial, C03_year_month, C03_duration_relative prove `Out.Safe` (neither) for every modelled "
+                      "public operation and ALL arguments (receivers only need a month in 1..12, which C03_receivers_have_months "
+                      "shows every constructed value has). C03_diff_loops_terminate proves the two unbounded search loops of "
+                      "diff_iso_date exit within 3 / 13 iterations. The tie: all arithmetic suites are re-run (a panicking "
+                      "implementation differs from a model that provably never panics; the harness is built with overflow checks "
+                      "and debug assertions and wraps every call in catch_unwind), plus a surface sweep (suite c03) over the "
+                      "functions that are not modelled: every parser on seeds, mutations and symbol soups including multi-byte "
+                      "text, every calendar on extreme/boundary/random dates and partial records, every zone of the zoneinfo "
+                      "directory at extreme and random instants through the ZonedDateTime API and durations relative to it.",
+        "level_note": "Trusted: Lean kernel (+propext, Classical.choice, Quot.sound); the hand model's placement of panic sites "
+                      "(a panic site missing from the model is only caught by the differential run); integer widths are modelled as "
+                      "unbounded integers with the explicit range guards of the code, so an overflow inside a modelled operation is "
+                      "caught by the run with overflow checks, not by the theorems. For the swept (unmodelled) surface the theorems "
+                      "say nothing; the sweep is a search, and C11-C16, C19, C20 model those parts.",
+        "why_difference_is_violation":
+            "The model never panics (C03_* theorems) and the sweep's expected outcome is `safe`; the implementation panicked, "
+            "overflowed or returned an internal-assertion error on this input (sweep lines name the panic site).",
+        "rule": "suites c03 (surface sweep: outcome reduced to safe / panic@site / assert:call) + c04,c05,c06,c08,c09,c10,c17,c18 "
+                "(outcomes compared with the model); distinct = distinct op line; non-trivial = a value was computed (ok) or the "
+                "sweep line completed all its calls (safe)",
+    },
     "C08": {
         "lean_modules": ["TemporalModel.Props.C08"],
         "suites": ["c08"],
